@@ -136,6 +136,7 @@ class Ctx:
         self.typedef_names = []  # (path, new name, target has enums)
         self.fn_groups = {}     # (path, name) -> expansions of the overloads so far
         self.enum_class_lower = set()  # lower-cased names of classes with nested enums
+        self.member_kinds = {}  # (path, class) -> (property names, method names) incl. inherited
 
     def names(self, path):
         return self.used.setdefault(path, set())
@@ -684,6 +685,16 @@ def classes(draw, ctx: Ctx, path: Tuple[str, ...]):
     ctx.enum_types = []
     if prof.compilable:
         members = _distinct_signatures(members)
+        # pybind11 cannot register a method under the name of an inherited property (or the
+        # reverse): a derived class does not re-use an ancestor's member name for another kind
+        inh = ctx.member_kinds.get((parent.ns, parent.name), (set(), set())) \
+            if parent is not None else (set(), set())
+        members = [x for x in members
+                   if not (isinstance(x, (M.Method, M.Static)) and x.name in inh[0]) and
+                   not (isinstance(x, M.Prop) and x.name in inh[1])]
+        ctx.member_kinds[(path, name)] = (
+            inh[0] | {x.name for x in members if isinstance(x, M.Prop)},
+            inh[1] | {x.name for x in members if isinstance(x, (M.Method, M.Static))})
     has_lists = bool(template) and all(p.insts for p in template.params)
     cls = M.Class(name, tuple(members), template, virtual, parent)
     scoped = any(t2.ns and t2.ns[0] in ctp for t in M.all_types(cls) for t2 in t.walk())
